@@ -203,6 +203,8 @@ def free_mix(ctx, r):
 
 
 def run(ctx):
+    import os
+    os.environ["GOGC"] = "1"      # stress the Go runtime: collections (and finalizers) inside every lock section
     framework.check_facts(ctx, ctx.facts, ["with_lock", "lock_sites", "writer_calls", "sections"])
     # T3: every mutating command kind: one exclusive non-blocking lock around read…write, nothing after unlock but the optional reply read
     st = cmdrun.Store(ctx.ergo, ctx.go)
@@ -237,8 +239,10 @@ def run(ctx):
     for i in range(14 if ctx.quick else 400):
         free_mix(ctx, r.fork())
     # two-process schedules with A parked before, inside and after its lock section
+    a_kinds = ["compact", "plan", "prune", "claim_oldest", "sequence", "set+state", "new+state", "claim_id"]
     for i in range(8 if ctx.quick else 200):
-        explore2.explore(ctx, "C02", r.fork(), max_points=(4 if ctx.quick else 40))
+        explore2.explore(ctx, "C02", r.fork(), kindsA=(a_kinds[i % len(a_kinds)],), kindsB=("new", "set", "reopen", "claim_oldest", "set+state"),
+                         max_points=(5 if ctx.quick else 40))
     ctx.cov["rule"] = ("system-call programs of every writer kind (one exclusive non-blocking flock; the log read after it and before the single write / tmp+rename; unlock last); pairs of "
                        "generated commands A ∥ B with A parked (strace SIGSTOP) at first/middle/last (thorough: every) point while holding the lock: B must fail fast with lock busy and write nothing, "
                        "A's outcome must equal A alone; 2–5 commands started together: whole JSON lines, no interleaving, and the final state equals the acknowledged commands run one at "
